@@ -75,6 +75,7 @@ type Downstream struct {
 
 	state           *streamState
 	connStatus      *connStatus
+	connEpoch       uint64 // connStatus.reconnects at the time the stream was attached to its wire connection
 	eventDispatcher *eventDispatcher
 }
 
@@ -235,7 +236,7 @@ func (d *Downstream) run() error {
 
 	eg.Go(func() error {
 		d.connStatus.cond.L.Lock()
-		for !d.connStatus.IsWithoutLock(connStatusReconnecting) {
+		for !d.connStatus.IsWithoutLock(connStatusReconnecting) && d.connStatus.reconnects == d.connEpoch {
 			select {
 			case <-ctx.Done():
 				d.connStatus.cond.L.Unlock()
